@@ -479,6 +479,9 @@ func runReplay(w *world, j *judge, cs childSpec) error {
 	case "burst":
 		cs.N = 20
 		return runBurst(w, j, cs)
+	case "overlap", "overlap-dev-on":
+		cs.N = 20
+		return runOverlap(w, j, cs)
 	case "keyperm":
 		return runKeyPerm(w, j, cs)
 	case "badentry-before", "badentry-after":
